@@ -67,12 +67,12 @@ func VerifLoadReplay(path string) string {
 
 func verifNext(tag, kind string) verifReplayVal {
 	if verifPos >= len(verifVals) {
-		panic(fmt.Sprintf("replay: no value left for %s %s", kind, tag))
+		panic(fmt.Sprintf("verif-replay-mismatch: no value left for %s %s", kind, tag))
 	}
 	v := verifVals[verifPos]
 	verifPos++
 	if v.Kind != kind {
-		panic(fmt.Sprintf("replay: expected %s for %s, recorded %s %s", kind, tag, v.Kind, v.Tag))
+		panic(fmt.Sprintf("verif-replay-mismatch: expected %s for %s, recorded %s %s", kind, tag, v.Kind, v.Tag))
 	}
 	return v
 }
